@@ -25,11 +25,13 @@ fn spaces(tier: Tier) -> Vec<Space> {
     let mut v = vec![];
     let mut s = SyncSys::new(2);
     s.c14 = true;
+    s.c01 = false;
     s.undo_points = true;
     s.updates = odd_updates();
     v.push(Space { name: "R2-undo-odd", sys: s, depth: if q { 6 } else { 8 } });
     let mut s = SyncSys::new(2);
     s.c14 = true;
+    s.c01 = false;
     s.undo_points = true;
     s.updates = vec![("p".into(), Some("a".into()), 1), ("p".into(), Some("b".into()), 2)];
     s.big_budget = 1;
@@ -37,6 +39,8 @@ fn spaces(tier: Tier) -> Vec<Space> {
     if !q {
         let mut s = SyncSys::new(3);
         s.c14 = true;
+        s.c01 = false;
+    s.c01 = false;
         s.undo_points = true;
         s.tasks = vec![1, 2];
         s.updates = vec![("p".into(), Some("a".into()), 1), ("p".into(), None, 2)];
@@ -64,6 +68,8 @@ fn subsecond(rep: &Report) {
     let sys = {
         let mut s = SyncSys::new(1);
         s.c14 = true;
+        s.c01 = false;
+    s.c01 = false;
         s
     };
     for (i, st) in stamps.iter().enumerate() {
